@@ -186,6 +186,10 @@ func (w *xw) open(name string, ns []attr, attrs []attr, empty bool) {
 	}
 	wr := func(as []attr) {
 		for _, a := range as {
+			if a.k == "ID" { // kept literal so that harness-side text tools can locate elements
+				w.b.WriteString(" " + a.k + "=" + w.q() + a.v + w.q())
+				continue
+			}
 			w.b.WriteString(" " + a.k + "=" + w.q() + w.encAttr(a.v) + w.q())
 		}
 	}
